@@ -11,7 +11,7 @@ DATA = "ptr_const_unsigned_char|unsigned_long_int"
 def U(name, fn, contract, reach=(), tier="quick", **kw):
     d = dict(name="Buffer." + name, prop="C08", entry="h_" + name.split("@")[0], srcs=SRCS,
              enforce=(fn, contract) if fn else None,
-             replace=[MC, MM, MCMP], kind="proof", tier=tier, reach=list(reach), timeout=1500,
+             replace=[MC, MM, MCMP], kind="proof", tier=tier, reach=list(reach), timeout=3600,
              funcs=[fn.split("(")[0]] if fn else [], native=["src/Memory.cpp"], min_obligations=20)
     d.update(kw)
     return d
